@@ -38,6 +38,9 @@ CHECKS["C10"] = dict(cat="translation_validation", tech="symbolic execution of i
 CHECKS["C12"] = dict(cat="translation_validation", tech="symbolic execution of traced integrate for assembled vs constituent modules; DAG equality under row-offset renaming (AC-normalised hash-consing, congruence descent, z3); concrete side-check of tables",
    text="Each cell simulated inside a synapse-free network is compared, for all symbolic table entries, with the same cell simulated alone (symbols renamed by the row offset), for heterogeneous cells of different depth/channels and both orders; likewise one-branch cell vs branch, one-compartment branch vs compartment and sibling orders. Table preservation is a concrete side-check.",
    note="exact real arithmetic; custom solvers refuse networks whose cells differ in per-level compartment counts (counted as refusal); jax.sparse network-vs-cell covered by C01", ref="6 C12")
+CHECKS["C15"] = dict(cat="other", tech="SMT (z3) identities on the traced IR: one-step stability function per scheme and backend, exact cubic consistency of the traced cable vector field, steady-state fixed point",
+   text="A limit is not an SMT assertion; z3 proves on the traced IR the algebraic facts from which the textbook orders follow (stability functions of bwd/CN/fwd for every backend including the unit factors, exactness of the traced second difference for cubic profiles with sealed-end flux rows, steady state as fixed point). The Lax argument to the stated orders and the analytic resistance comparisons are outside the solver.",
+   note="exact real arithmetic; Lax equivalence theorem trusted; stability from C02; uniform cables only", ref="6 C15")
 NA = {}
 checks = []
 for pid, c in CHECKS.items():
